@@ -332,6 +332,9 @@ def run_case(script):
       try:
         if c % 2:
           ar = d.DispatchMethodCall('hi', ('c%d' % c,), {}, timeout=T / 1000.0)
+        elif c % 4 == 0:
+          d._dispatch_timeout = T / 1000.0
+          ar = cl.hi_async(test_data='c%d' % c)        # keyword argument
         else:
           d._dispatch_timeout = T / 1000.0
           ar = cl.hi_async('c%d' % c)
